@@ -3,7 +3,7 @@ from .. import simprop
 
 ID = "C07"
 FAMILY = "C07"
-VARIANTS = ("asan",)
+VARIANTS = ("asan", "rel")      # rel: only to re-judge a case that UBSan stopped (simprop)
 BUDGET = {"quick": dict(examples=80000, seconds=55), "thorough": dict(examples=2000000, seconds=540)}
 NONTRIVIAL = {'pool-preempt-victim', 'pool-acquire-cut-short', 'pool-top-up'}
 PROFILES = [(4, 'pool'), (1, 'mixed')]
